@@ -199,6 +199,10 @@ def opRT (args obs : List String) : Option DecOut :=
       | none => none
       | some menc =>
         match obs with
+        | ["encoder-modified-its-input"] =>
+          some { corr := none, fails := ["C07 encoding modified the caller's message / entry list (timestamps)"], branch := s!"rt.{name}.{ep}{dp}.mod" }
+        | ["prefix-modified"] =>
+          some { corr := none, fails := ["C01 MarshalMsg modified the prefix of the buffer it was given"], branch := s!"rt.{name}.{ep}{dp}.pfx" }
         | ["err"] =>
           some { corr := if menc.isNone then none else some "model encodes, go=err",
                  fails := if menc.isNone then [] else ["C01 encodable-message-rejected"],
@@ -276,8 +280,11 @@ def opCHUNK (args obs : List String) : Option DecOut :=
         | .ok c _ => s!"ok {toHex c}"
         | .err => "err"
         | .panic _ => "panic"
+      let unstable := obs.contains "unstable"
+      let obs := obs.filter (· ≠ "unstable")
       let go := " ".intercalate obs
-      let f10 := if go.startsWith "panic" || go.startsWith "hang" then ["C10 " ++ go] else []
+      let f10 := (if go.startsWith "panic" || go.startsWith "hang" then ["C10 " ++ go] else []) ++
+        (if unstable then ["C07 the string GetChunk returned changed after a later GetChunk call", "C11 the string GetChunk returned changed after a later GetChunk call"] else [])
       let (wf, f11) := match parse b with
         | some (o, []) =>
           if wellFormedMode o then
